@@ -31,11 +31,11 @@ def race_site(report):
 
 
 def correspond(ctx, C):
-    n = 40 if ctx.tier == "quick" else 1500
+    n = 40 if ctx.tier == "quick" else 800
     if ctx.search:
         n *= 3
     try:
-        rows = C.run_family("conc", n, ctx.seed, ctx.tier, replay=S.replay_file(ctx, C), race=True)
+        rows = C.run_family("conc", n, ctx.seed, ctx.tier, replay=S.replay_file(ctx, C), race=True, timeout=3600 if ctx.tier == "quick" else 14400)
     except C.HarnessCrash as e:
         # the process died (fatal runtime error such as "concurrent map read and map write" cannot be recovered): the case it
         # was running is the failing input
